@@ -103,8 +103,34 @@ RL_BIND = (" Level A is the dense sequence the encoding denotes (spec/abs/RunLen
            "value set per dtype (hence every run layout and every relative alignment of two operands' run boundaries) x the argument grammar; every claimed case "
            "state is executed against the real classes; seeded drivers add longer arrays, all dtypes and NaN, judged by TLC (Trace_RL).")
 
+ENC_VERDICTS = ("inconsistent-encoding", "not-canonical", "adjacent-equal-runs", "lock-step")
+
+
+def c14():
+    """round trip + the canonical-form promises on every run-length object the C15 / C16 cases produce"""
+    t = Timer()
+    res = runner.Result("C14")
+    runner.model_stage(res, "C14", "rl", "MC_RL", strict=True, shared=True)
+    runner.trace_stage(res, "C14", "rl", "drivers_rl", "Trace_RL", 3000 if Q else 30000)
+    for other in ("C15", "C16"):
+        sub = runner.Result(other)
+        runner.model_stage(sub, other, "rl", "MC_RL", strict=False, shared=True)
+        runner.trace_stage(sub, other, "rl", "drivers_rl", "Trace_RL", 2000 if Q else 20000)
+        sub.bad = [b for b in sub.bad if b.get("verdict") in ENC_VERDICTS]      # value mismatches there are charged to C15 / C16
+        for k in ("states", "transitions", "evaluations", "nontrivial", "traces", "unspec"):
+            setattr(res, k, getattr(res, k) + getattr(sub, k))
+        res.bad += sub.bad
+        for k, v in sub.extra.items():
+            res.extra.setdefault(k, []).extend(v)
+    return runner.finish(res,
+        "Encoding round trip: decode(encode(a)) = a element-wise (NaN = NaN), dtype, len/size/shape, numpy conversion; EncoderLemma on the model. In addition the "
+        "encoding predicates (Consistent, Canonical, NoAdjEq where promised) are judged on every RunLengthArray produced by the slicing, arithmetic and "
+        "concatenation cases of the C15 and C16 instances - also when the operand's own encoding is not run-minimal (built by concatenation / scalar ufunc)." + RL_BIND,
+        "case = (operation, dense content, arguments); non-trivial = every claimed case", A_REGIME, t.s())
+
+
 CHECKS = {
-    "C14": _rl_check("C14", True, 4000, 40000, "Encoding round trip: decode(encode(a)) = a element-wise (NaN = NaN), dtype, len/size/shape, numpy conversion; EncoderLemma on the model."),
+    "C14": c14,
     "C15": _rl_check("C15", False, 4000, 40000, "Indexing equals indexing the dense array: integers, lists, dense and run-length boolean masks, every slice incl. out-of-range bounds and negative steps, start/stop windows."),
     "C16": _rl_check("C16", True, 4000, 40000, "Arithmetic equals arithmetic on the dense arrays: unary, two run-length operands with unrelated run boundaries, scalars on either side, reductions, histogram (oracle = numpy on the decoded array), concatenation; operands unchanged."),
     "C17": _rl_check("C17", False, 4000, 40000, "2-D and ragged run-length arrays behave as one run-length array per row: constructors, len/shape/size, row / element / column / column-range selection in the claimed region, row and column reductions, ravel, concatenation, ufuncs with scalars and column vectors on either side."),
